@@ -756,8 +756,6 @@ func (t *Transition) emitEvents() Result {
 			m.activeStatesMx.Lock()
 			m.setActiveStates(called, t.TargetStates(), t.IsAuto())
 			// gather new clock values, overwrite fake TimeAfter
-			m.activeStatesMx.Unlock()
-			verifPoint(m, "tx:applied")
 
 			// cache for subscriptions, mind partially accepted auto states
 			if t.IsAuto() {
@@ -769,8 +767,12 @@ func (t *Transition) emitEvents() Result {
 				t.cacheDeactivated = t.Exits
 			}
 
-			// cancel contexts as soon as known
+			// cancel contexts as soon as known; collected under the same lock
+			// that applied the states, so that a context created meanwhile
+			// (NewStateCtx takes this lock) belongs to the new instance
 			toCancel := m.subs.ProcessStateCtx(t.cacheActivated, t.cacheDeactivated)
+			m.activeStatesMx.Unlock()
+			verifPoint(m, "tx:applied")
 			for _, cancel := range toCancel {
 				cancel()
 			}
